@@ -888,7 +888,7 @@ impl Scenario for S1 {
     const NAME: &'static str = "S1-filter-node";
     const RULE: &'static str = "one filter (bloom/cuckoo/quotient/hashset by property) with tiny tables (10% realistic sizes), hasher mode, key universe, RNG tape and an operation list are all drawn from the run seed; the indistinguishability classes are derived black-box per run; every operation is followed by a sweep of the whole universe against the class model";
 
-    fn generate(seed: u64, prop: &'static str, _tier: Tier) -> FilterCase {
+    fn generate(seed: u64, _run: u64, prop: &'static str, _tier: Tier) -> FilterCase {
         let mut g = Sm::new(seed);
         let which = match prop {
             "C13" => 2,
